@@ -80,7 +80,8 @@ def twin_transp(task: dict) -> str:
     return "\n".join(json.dumps(x) for x in out) + "\n##SINGLES##\n" + "\n".join(json.dumps(x) for x in singles)
 
 
-WEIRD_NAMES = [["zeta", "Yotta", "x1", "A_b", "m9", "Q"], ["v10", "v9", "v2", "v1", "v11", "v3"],
+WEIRD_NAMES = [["gab1_kin", "erb0_x", "b1_a", "b0_b", "zb1_", "b1_b0_q"], ["tr_a_up_1", "b1_b1_", "kind", "place", "b0_b1_x", "_b0_"],
+               ["zeta", "Yotta", "x1", "A_b", "m9", "Q"], ["v10", "v9", "v2", "v1", "v11", "v3"],
                ["B", "a", "C", "b", "A", "c"], ["n_3", "n_1", "n__2", "N_1", "n_0", "n_9"]]
 
 
